@@ -7,7 +7,7 @@ import json, os, subprocess, sys, shutil, time, hashlib
 
 VERIF = os.path.dirname(os.path.dirname(os.path.abspath(__file__)))
 REPO = os.environ.get("VERIF_REPO", "/repo")
-BUILD = os.path.join(VERIF, "build")
+BUILD = os.environ.get("VERIF_BUILD") or os.path.join(VERIF, "build")  # VERIF_REPO / VERIF_BUILD: trial builds of scratch worktrees (tools/tryseed_wt.sh)
 GOROOT = "/opt/veriftools/go1.26.8"
 GO = os.path.join(GOROOT, "bin", "go")
 
